@@ -5,6 +5,7 @@ import ast
 from typing import Any, Dict, List, Optional
 
 from . import terms as T
+from .progdb import AnalysisError
 from .values import (Columns, DefaultDict, ClassRef, Each, EnumRef, ExtMod, Frame, FuncRef, GenCall, GroupBy, GuardedSeq, Obj, PyTuple, ReMatch, Ser, to_term)
 
 _CMP_METH = {"lt": "<", "le": "<=", "gt": ">", "ge": ">=", "eq": "==", "ne": "!="}
@@ -42,7 +43,11 @@ class SeriesOps:
         if name == "isin":
             return s.with_term(self._isin(s.term, arg0))
         if name == "between":
-            return s.with_term(T.and_(T.cmp(">=", s.term, t0), T.cmp("<=", s.term, M.as_ser_term(pos[1]))))
+            lo_, hi_ = (pos[0] if pos else kw.get("left")), (pos[1] if len(pos) > 1 else kw.get("right"))
+            inc = pos[2] if len(pos) > 2 else kw.get("inclusive", "both")
+            if inc not in ("both", "neither", "left", "right"):
+                raise AnalysisError(f"Series.between(inclusive={inc!r}) not modelled")
+            return s.with_term(T.and_(T.cmp(">=" if inc in ("both", "left") else ">", s.term, M.as_ser_term(lo_)), T.cmp("<=" if inc in ("both", "right") else "<", s.term, M.as_ser_term(hi_))))
         if name == "shift":
             k = arg0 if pos else kw.get("periods", 1)
             return s.with_term(T.win("shift", (k,), s.term, s.ctx))
@@ -414,8 +419,6 @@ class SeriesOps:
                     except TypeError:
                         pass
                 return None
-            if name == "union" and pos and isinstance(pos[0], (set, list)):
-                return set(obj) | set(pos[0])
             # a set of known elements combined with collections of known elements: the library's own result
             known = lambda c_: not any(isinstance(x, Each) or (isinstance(x, tuple) and len(x) == 2 and x[0] == "allof") for x in c_)
             others = [I._concrete_seq(p_) for p_ in pos]
